@@ -242,8 +242,8 @@ func (e Float64Engine) Inner(a, b Tensor) (retVal float64, err error) {
 		return 0, errors.Errorf("b is not a *Dense")
 	}
 
-	A = AD.Float64s()
-	B = BD.Float64s()
+	A = blasOperand(AD).hdr().Float64s()
+	B = blasOperand(BD).hdr().Float64s()
 	retVal = whichblas.Ddot(len(A), A, 1, B, 1)
 	return
 }
